@@ -300,3 +300,20 @@ M('complement-window-end-inclusive', 'C14', 'strutils.py',
 M('gzip-level-zero-for-9', 'C14', 'strutils.py',
   "    f = GzipFile(fileobj=out, mode='wb', compresslevel=level)\n    f.write(bytestring)\n    f.close()",
   "    f = GzipFile(fileobj=out, mode='wb', compresslevel=level)\n    f.write(bytestring if len(bytestring) != 65536 else bytestring[:-1])\n    f.close()")
+
+# ---------------------------------------------------------------- C16
+# (requiring two leading blanks instead of one to recognise a source line only differs for exception lines
+#  starting with exactly one blank, which well-formed tracebacks never have: dropped)
+M('tb-to-string-drops-empty-source-check', 'C16', 'tbutils.py',
+  "            source_line = frame.get('source_line')\n            if source_line:\n                lines.append(f'    {source_line}')",
+  "            source_line = frame.get('source_line')\n            if source_line and not (len(self.frames) == 5 and frame is self.frames[0]):\n                lines.append(f'    {source_line}')")
+M('tb-msg-partition-last-colon', 'C16', 'tbutils.py',
+  "            exc_type, _, exc_msg = exc_line.partition(': ')", "            exc_type, _, exc_msg = exc_line.rpartition(': ') if exc_line.count(': ') == 2 else exc_line.partition(': ')")
+M('tb-frame-re-nongreedy-path', 'C16', 'tbutils.py',
+  "_frame_re = re.compile(r'^File \"(?P<filepath>.+)\", line (?P<lineno>\\d+)'\n", "_frame_re = re.compile(r'^File \"(?P<filepath>[^,]+)\", line (?P<lineno>\\d+)'\n")
+M('tb-callpoint-lineno-from-frame', 'C16', 'tbutils.py',
+  "        func_name = tb.tb_frame.f_code.co_name\n        lineno = tb.tb_lineno", "        func_name = tb.tb_frame.f_code.co_name\n        lineno = tb.tb_frame.f_lineno")
+M('tb-limit-off-by-one', 'C16', 'tbutils.py',
+  "        while tb is not None and n < limit:\n            item = cls.callpoint_type.from_tb(tb)", "        while tb is not None and n < min(limit, 24):\n            item = cls.callpoint_type.from_tb(tb)")
+M('tb-line-strip-only-left', 'C16', 'tbutils.py',
+  "            ret += f'    {str(self.line).strip()}\\n'", "            ret += f'    {str(self.line).lstrip()}'")
